@@ -2,10 +2,14 @@
 C09 — Exceptions reach the nearest matching handler and unwind cleanly.
 -/
 import ZnVerif.Model.Interp
+import ZnVerif.Proofs.Handlers
+import ZnVerif.Proofs.Toy
 set_option linter.unusedSectionVars false
+set_option linter.unusedSimpArgs false
+set_option linter.unusedVariables false
 
 namespace ZnVerif.Properties.C09
-open ZnVerif.Model
+open ZnVerif.Model ZnVerif.Proofs.Calls
 
 variable {ν : Type} [NumOps ν]
 
@@ -35,5 +39,323 @@ theorem break_is_signal (n ln : Nat) (s : VM ν) :
     (evalStmt (n+1) (.break ln) s).1 = .err .sigBreak := by
   simp only [evalStmt, Stmt.line]
   simp [bind, setTopFrame, modifyVM, throwE]
+
+/-! ## handlers (`handleExceptionSignal`) -/
+
+/-- the error of a protected body goes to the block's handlers, with the module and the call depth of the block's
+entry (both read before anything of the block runs) -/
+theorem body_error_goes_to_handlers (n : Nat) (inputs : List Ident) (body : Option (List Stmt))
+    (catches : List (Option Ident × Option (List Stmt))) (params : List Addr) (s s1 s2 : VM ν) (e : Err)
+    (hlen : params.length = inputs.length)
+    (hpro : (do bindThis s; bindInputs inputs params : M ν Unit) s = (.ok (), s1))
+    (hbody : evalStmtBlock n body s1 = (.err e, s2)) :
+    execBlockBody n inputs body catches params s = handleException n s.csModuleID s.stack.length catches e s2 := by
+  unfold execBlockBody
+  have hne : ¬ params.length ≠ inputs.length := by simp [hlen]
+  rw [M_bind_def] at hpro ⊢
+  rcases hb : bindThis s s with ⟨r, s'⟩
+  rw [hb] at hpro
+  cases r <;> simp only at hpro ⊢ <;> try (cases hpro)
+  simp only [hne, if_false]
+  rw [bind_ok hpro]
+  unfold Model.tryCatch
+  rw [hbody]
+  rfl
+
+/-- the first handler whose class name equals the exception's class name runs; the handlers after it play no role
+(`post` is arbitrary), the ones before it are passed over -/
+theorem handler_matches_first_class (n : Nat) (bm : Int) (bd : Nat)
+    (pre post : List (Option Ident × Option (List Stmt))) (i : Ident) (blk : Option (List Stmt))
+    (e : Err) (ex : Addr) (s s1 : VM ν)
+    (hexc : excOf e s = (.ok (some ex), s1)) (hcls : HasClass s1 ex i.lit) (hi : IsName i.lit) (hne : i.lit ≠ "")
+    (hpre : ∀ c ∈ pre, ∃ j, c.1 = some j ∧ IsName j.lit ∧ j.lit ≠ i.lit) :
+    handleException (n+1) bm bd (pre ++ (some i, blk) :: post) e s = runHandlerA n bm bd ex blk s1 := by
+  rw [handleException_eq, bind_ok hexc]
+  simp only
+  rw [bind_ok (classNameOf_of_hasClass hcls)]
+  rw [firstM_skip s1 pre _ (by
+    intro c hc
+    obtain ⟨j, hj1, hj2, hj3⟩ := hpre c hc
+    rcases c with ⟨c1, c2⟩
+    simp only at hj1; subst hj1
+    exact tryHandler_miss n bm bd ex i.lit j c2 hj2 hj3 s1)]
+  rw [firstM_cons_hit (runHandlerA n bm bd ex blk) (by rw [tryHandler_hit n bm bd ex i blk hi hne, runHandler_eq])]
+
+/-- no handler of the exception's class: the very same error value goes on outward -/
+theorem unmatched_propagates_unchanged (n : Nat) (bm : Int) (bd : Nat)
+    (catches : List (Option Ident × Option (List Stmt))) (e : Err) (ex : Addr) (s s1 : VM ν) (name : String)
+    (hexc : excOf e s = (.ok (some ex), s1)) (hcls : HasClass s1 ex name)
+    (hall : ∀ c ∈ catches, ∃ j, c.1 = some j ∧ IsName j.lit ∧ j.lit ≠ name) :
+    handleException (n+1) bm bd catches e s = (.err e, s1) := by
+  rw [handleException_eq, bind_ok hexc]
+  simp only
+  rw [bind_ok (classNameOf_of_hasClass hcls)]
+  have := firstM_skip (f := tryHandler n bm bd ex name) (d := (throwE e : M ν Addr)) s1 catches [] (by
+    intro c hc
+    obtain ⟨j, hj1, hj2, hj3⟩ := hall c hc
+    rcases c with ⟨c1, c2⟩
+    simp only at hj1; subst hj1
+    exact tryHandler_miss n bm bd ex name j c2 hj2 hj3 s1)
+  rw [List.append_nil] at this
+  rw [this]; rfl
+
+/-- a runtime fault (index out of range, division by zero, …) is seen by the handlers as an 异常 value -/
+theorem runtime_fault_is_catchable (n : Nat) (bm : Int) (bd : Nat)
+    (post : List (Option Ident × Option (List Stmt))) (i : Ident) (blk : Option (List Stmt)) (code : Nat)
+    (s : VM ν) (hi : i.lit = exceptionClassName) :
+    handleException (n+1) bm bd ((some i, blk) :: post) (.rt code) s =
+      runHandlerA n bm bd s.heap.size blk { s with heap := s.heap.push (.exc ("‹rt:" ++ toString code ++ "›")) } := by
+  have hname : IsName i.lit := by rw [hi]; decide
+  have hne : i.lit ≠ "" := by rw [hi]; decide
+  have hcell : ({ s with heap := s.heap.push (.exc ("‹rt:" ++ toString code ++ "›")) } : VM ν).heap[s.heap.size]? =
+      some (.exc ("‹rt:" ++ toString code ++ "›")) := by simp
+  have := handler_matches_first_class n bm bd [] post i blk (.rt code) s.heap.size s _ (excOf_rt code s)
+    (Or.inl ⟨_, hcell, hi⟩) hname hne (by intro c hc; cases hc)
+  rw [List.nil_append] at this
+  exact this
+
+/-- semantic errors and loop signals are not exceptions: handlers never see them -/
+theorem non_exception_errors_pass (n : Nat) (bm : Int) (bd : Nat)
+    (catches : List (Option Ident × Option (List Stmt))) (e : Err) (s : VM ν)
+    (he : (∃ c, e = .sem c) ∨ e = .sigBreak ∨ e = .sigContinue ∨ e = .other) :
+    handleException (n+1) bm bd catches e s = (.err e, s) := by
+  rw [handleException_eq]
+  rcases he with ⟨c, rfl⟩ | rfl | rfl | rfl <;> rfl
+
+/-- the handler block runs with the exception as 其: the frame on top is an exception frame of the protected block's
+module whose receiver is the exception value -/
+theorem handler_this_is_exception (bm : Int) (bd : Nat) (ex : Addr) (s : VM ν) :
+    (handlerEntry bm bd ex s).stack = { moduleId := bm, callType := 3, this := some ex } :: (unwindTo bd s).2.stack ∧
+    (handlerEntry bm bd ex s).csModuleID = bm ∧
+    getThis (handlerEntry bm bd ex s) = (.ok (some ex), handlerEntry bm bd ex s) := by
+  have h := pushFrame_run (ν := ν) { moduleId := bm, callType := 3, this := some ex } (unwindTo bd s).2
+  refine ⟨h.2.1, h.2.2.1, ?_⟩
+  exact getThis_cons _ _ _ h.2.1
+
+theorem runHandlerA_run (n : Nat) (bm : Int) (bd : Nat) (ex : Addr) (blk : Option (List Stmt)) (s : VM ν)
+    (hbm : 0 ≤ bm) :
+    runHandlerA n bm bd ex blk s =
+      match evalPureStmtBlock n blk (handlerEntry bm bd ex s) with
+      | (.ok _, s3) =>
+        (do let rv ← getReturnValue
+            popFrame
+            match rv with
+            | some v => pure v
+            | none => newNull) s3
+      | (.err e, s3) => (.err e, s3)
+      | (.panic, s3) => (.panic, s3)
+      | (.fuel, s3) => (.fuel, s3)
+      | (.unmodelled, s3) => (.unmodelled, s3) := by
+  unfold runHandlerA handlerEntry
+  have h1 : unwindTo bd s = (.ok (), (unwindTo bd s).2) := by rw [unwindTo_run]
+  rw [bind_ok h1]
+  have hlt : ¬ bm < 0 := by omega
+  simp only [hlt, if_false]
+  have h2 : pushFrame { moduleId := bm, callType := 3, this := some ex } (unwindTo bd s).2 =
+      (.ok (), (pushFrame { moduleId := bm, callType := 3, this := some ex } (unwindTo bd s).2).2) := by
+    unfold pushFrame modifyVM; rfl
+  rw [bind_ok h2, M_bind_def]
+  rcases evalPureStmtBlock n blk
+    (pushFrame { moduleId := bm, callType := 3, this := some ex } (unwindTo bd s).2).2 with ⟨r, s3⟩
+  cases r <;> rfl
+
+/-- the value of a handled block is the handler's 输出 value (its frame's return slot), or a fresh 空 -/
+theorem handler_value_or_null (n : Nat) (bm : Int) (bd : Nat) (ex : Addr) (blk : Option (List Stmt))
+    (s s3 : VM ν) (x : Option Addr) (fr : Frame) (rest : List Frame) (hbm : 0 ≤ bm)
+    (hrun : evalPureStmtBlock n blk (handlerEntry bm bd ex s) = (.ok x, s3)) (hst : s3.stack = fr :: rest) :
+    (∀ v, fr.ret = some v → (runHandlerA n bm bd ex blk s).1 = .ok v ∧ (runHandlerA n bm bd ex blk s).2.heap = s3.heap) ∧
+    (fr.ret = none → (runHandlerA n bm bd ex blk s).1 = .ok s3.heap.size ∧
+      (runHandlerA n bm bd ex blk s).2.heap = s3.heap.push .null) := by
+  rw [runHandlerA_run n bm bd ex blk s hbm, hrun]
+  simp only
+  rw [bind_ok (getReturnValue_cons s3 fr rest hst), bind_ok (popFrame_cons s3 fr rest hst)]
+  constructor
+  · intro v hv; rw [hv]; exact ⟨rfl, rfl⟩
+  · intro hv; rw [hv]; exact ⟨rfl, rfl⟩
+
+/-- restoration: after a handled exception the call stack is exactly the stack the protected block was entered with —
+the frames of the calls that failed inside it (`extra`) are dropped, the exception frame is popped — hence the call
+depth, 其 (the top frame's receiver) and the current module are those of before.  The handler block itself is
+assumed to leave the stack as it found it up to its own frame (`hbal`). -/
+theorem catch_restores_stack (n : Nat) (bm : Int) (bd : Nat) (ex : Addr) (blk : Option (List Stmt))
+    (s s3 : VM ν) (extra st0 : List Frame) (x : Option Addr) (fr : Frame) (hbm : 0 ≤ bm)
+    (hs : s.stack = extra ++ st0) (hl : st0.length = bd)
+    (hrun : evalPureStmtBlock n blk (handlerEntry bm bd ex s) = (.ok x, s3)) (hbal : s3.stack = fr :: st0) :
+    (handlerEntry bm bd ex s).stack = { moduleId := bm, callType := 3, this := some ex } :: st0 ∧
+    (∃ v, (runHandlerA n bm bd ex blk s).1 = .ok v) ∧
+    (runHandlerA n bm bd ex blk s).2.stack = st0 ∧
+    (runHandlerA n bm bd ex blk s).2.stack.length = bd ∧
+    (runHandlerA n bm bd ex blk s).2.csModuleID = topModule st0 ∧
+    getThis (runHandlerA n bm bd ex blk s).2 = (.ok (st0.head?.bind (·.this)), (runHandlerA n bm bd ex blk s).2) ∧
+    (runHandlerA n bm bd ex blk s).2.scopes = s3.scopes ∧ (runHandlerA n bm bd ex blk s).2.out = s3.out := by
+  refine ⟨by rw [(handler_this_is_exception bm bd ex s).1, unwindTo_stack bd s extra st0 hs hl], ?_⟩
+  rw [runHandlerA_run n bm bd ex blk s hbm, hrun]
+  simp only
+  rw [bind_ok (getReturnValue_cons s3 fr st0 hbal), bind_ok (popFrame_cons s3 fr st0 hbal)]
+  have hthis : ∀ (t : VM ν), t.stack = st0 → getThis t = (.ok (st0.head?.bind (·.this)), t) := by
+    intro t ht
+    cases hst : st0 with
+    | nil => simp [getThis, topFrame, bind, ht, hst, pure]
+    | cons f r => rw [getThis_cons t f r (by rw [ht, hst])]; rfl
+  cases hret : fr.ret with
+  | some v =>
+    refine ⟨⟨v, rfl⟩, rfl, hl, rfl, hthis _ rfl, rfl, rfl⟩
+  | none =>
+    refine ⟨⟨_, rfl⟩, rfl, hl, rfl, hthis _ rfl, rfl, rfl⟩
+
+/-- restoration at the level of the protected body (`evalExecBlock` = a method body or the program body with its
+拦截 handlers): a statement of the body fails with `e` in a state whose stack still carries the frames `extra` of the
+calls that failed; a handler matches and its block runs normally.  Then the body yields a value as if it had
+returned normally, and the call stack (so the call depth and 其), and the current module are exactly those at entry;
+heap cells are only added by the handler / exception value, never the stack.  (Scope depths and the caller's
+variables: `C06Eval.exec_block_restores_scope`, unconditional.) -/
+theorem catch_restores (n : Nat) (inputs : List Ident) (body : Option (List Stmt))
+    (pre post : List (Option Ident × Option (List Stmt))) (i : Ident) (blk : Option (List Stmt))
+    (params : List Addr) (s t1 t2 t3 t4 : VM ν) (e : Err) (ex : Addr) (extra : List Frame) (x : Option Addr)
+    (fr : Frame)
+    (hlen : params.length = inputs.length)
+    (hpro : (do bindThis (enterScope s); bindInputs inputs params : M ν Unit) (enterScope s) = (.ok (), t1))
+    (hbody : evalStmtBlock (n+1) body t1 = (.err e, t2))
+    (hstk : t2.stack = extra ++ s.stack)
+    (hexc : excOf e t2 = (.ok (some ex), t3)) (hcls : HasClass t3 ex i.lit) (hi : IsName i.lit) (hne : i.lit ≠ "")
+    (hpre : ∀ c ∈ pre, ∃ j, c.1 = some j ∧ IsName j.lit ∧ j.lit ≠ i.lit)
+    (hmod : 0 ≤ s.csModuleID)
+    (hrun : evalPureStmtBlock n blk (handlerEntry s.csModuleID s.stack.length ex t3) = (.ok x, t4))
+    (hbal : t4.stack = fr :: s.stack) :
+    let r := evalExecBlock (n+2) (some (.mk inputs body (pre ++ (some i, blk) :: post))) params s
+    (∃ v, r.1 = .ok v) ∧ r.2.stack = s.stack ∧ r.2.stack.length = s.stack.length ∧
+    r.2.csModuleID = topModule s.stack ∧ getThis r.2 = (.ok (s.stack.head?.bind (·.this)), r.2) ∧
+    r.2.out = t4.out := by
+  intro r
+  have hr : r = withScope (execBlockBody (n+1) inputs body (pre ++ (some i, blk) :: post) params) s := by
+    show evalExecBlock _ _ _ s = _
+    rw [evalExecBlock_eq]
+  rw [withScope_run] at hr
+  obtain ⟨hes, hec, _⟩ := enterScope_frame s
+  have hbodyrun : execBlockBody (n+1) inputs body (pre ++ (some i, blk) :: post) params (enterScope s) =
+      runHandlerA n s.csModuleID s.stack.length ex blk t3 := by
+    rw [body_error_goes_to_handlers (n+1) inputs body _ params (enterScope s) t1 t2 e hlen hpro hbody, hes, hec]
+    exact handler_matches_first_class n _ _ pre post i blk e ex t2 t3 hexc hcls hi hne hpre
+  have hstk3 : t3.stack = extra ++ s.stack := by
+    have := (excOf_frame e t2).1
+    rw [hexc] at this
+    rw [this, hstk]
+  obtain ⟨_, ⟨v, hv⟩, h3, h4, h5, h6, _, h8⟩ :=
+    catch_restores_stack n s.csModuleID s.stack.length ex blk t3 t4 extra s.stack x fr hmod hstk3 rfl hrun hbal
+  rw [hbodyrun] at hr
+  obtain ⟨f1, f2, _, f4⟩ := exitScope_frame s (runHandlerA n s.csModuleID s.stack.length ex blk t3).2
+  have hr2 : r.2 = exitScope s (runHandlerA n s.csModuleID s.stack.length ex blk t3).2 := by rw [hr]
+  have hr1 : r.1 = (runHandlerA n s.csModuleID s.stack.length ex blk t3).1 := by rw [hr]
+  refine ⟨⟨v, by rw [hr1, hv]⟩, by rw [hr2, f1, h3], by rw [hr2, f1, h3], by rw [hr2, f2, h5], ?_, by rw [hr2, f4, h8]⟩
+  have hstack : r.2.stack = s.stack := by rw [hr2, f1, h3]
+  cases hst : s.stack with
+  | nil => simp [getThis, topFrame, bind, hstack, hst, pure]
+  | cons f rest => rw [getThis_cons r.2 f rest (by rw [hstack, hst])]; rfl
+
+/-- `Function.Exec` turns a runtime error of the body into an exception error (which callers' handlers catch) -/
+theorem function_converts_runtime_error (n : Nat) (exec : Option ExecBlock) (this : Option Addr)
+    (params : List Addr) (s s' : VM ν) (c : Nat) (hbody : evalExecBlock n exec params s = (.err (.rt c), s')) :
+    execFunction (n+1) (.user exec) this params s =
+      (.err (.excErr s'.heap.size), { s' with heap := s'.heap.push (.exc ("‹rt:" ++ toString c ++ "›")) }) := by
+  simp only [execFunction]
+  unfold Model.tryCatch
+  rw [hbody]
+  rfl
+
+/-- …and passes thrown exceptions, exception errors, signals and semantic errors through unchanged -/
+theorem function_passes_other_errors (n : Nat) (exec : Option ExecBlock) (this : Option Addr)
+    (params : List Addr) (s s' : VM ν) (e : Err) (hbody : evalExecBlock n exec params s = (.err e, s'))
+    (he : (∀ c, e ≠ .rt c) ∧ e ≠ .other) :
+    execFunction (n+1) (.user exec) this params s = (.err e, s') := by
+  simp only [execFunction]
+  unfold Model.tryCatch
+  rw [hbody]
+  cases e <;> first | rfl | (exfalso; first | exact he.1 _ rfl | exact he.2 rfl)
+
+/-! ## non-vacuity: each implication above, instantiated on a tiny program over the toy numbers -/
+
+section examples
+open ZnVerif.Proofs.Toy
+
+/-- a body `结束循环` raises a signal; it reaches `handleException` with module 0 and depth 1 -/
+example : execBlockBody 3 [] (some [.break 0]) [] [] s0 =
+    handleException 3 0 1 [] .sigBreak (evalStmtBlock 3 (some [.break 0]) s0).2 :=
+  body_error_goes_to_handlers 3 [] (some [.break 0]) [] [] s0 s0 _ .sigBreak rfl rfl rfl
+
+/-- thrown 异常 value at address 0; handlers 甲, 异常, and a malformed third one that is never looked at -/
+example : handleException 3 0 1 ([(some ⟨0, "甲"⟩, none)] ++ (some ⟨0, "异常"⟩, some []) :: [(none, none)])
+    (.sigExc 0) s0 = runHandlerA 2 0 1 0 (some []) s0 :=
+  handler_matches_first_class 2 0 1 [(some ⟨0, "甲"⟩, none)] [(none, none)] ⟨0, "异常"⟩ (some []) (.sigExc 0) 0 s0 s0
+    rfl (Or.inl ⟨"boom", rfl, rfl⟩) (by decide) (by decide)
+    (by intro c hc; simp at hc; subst hc; exact ⟨⟨0, "甲"⟩, rfl, by decide, by decide⟩)
+
+example : handleException 3 0 1 [(some ⟨0, "甲"⟩, none)] (.sigExc 0) s0 = (.err (.sigExc 0), s0) :=
+  unmatched_propagates_unchanged 2 0 1 [(some ⟨0, "甲"⟩, none)] (.sigExc 0) 0 s0 s0 "异常"
+    rfl (Or.inl ⟨"boom", rfl, rfl⟩)
+    (by intro c hc; simp at hc; subst hc; exact ⟨⟨0, "甲"⟩, rfl, by decide, by decide⟩)
+
+/-- index-out-of-range (code 40) caught by `拦截 异常`: the handler's value is a fresh 空 at address 3 -/
+example : (handleException 3 0 1 [(some ⟨0, "异常"⟩, some [])] (.rt 40) s0).1 = .ok 3 := by
+  rw [runtime_fault_is_catchable 2 0 1 [] ⟨0, "异常"⟩ (some []) 40 s0 rfl]; rfl
+
+example : handleException 3 0 1 [(some ⟨0, "异常"⟩, some [])] .sigBreak s0 = (.err .sigBreak, s0) :=
+  non_exception_errors_pass 2 0 1 _ .sigBreak s0 (Or.inr (Or.inl rfl))
+
+/-- handler `输出 “x”`: the value is the text cell (address 2); handler without 输出: a fresh 空 (address 2) -/
+example : (runHandlerA 3 0 1 0 (some [.ret 0 (.str 0 "x")]) s0Failed).1 = .ok 2 :=
+  ((handler_value_or_null 3 0 1 0 (some [.ret 0 (.str 0 "x")]) s0Failed _ _ _ _ (by decide) rfl rfl).1 2 rfl).1
+
+example : (runHandlerA 3 0 1 0 (some []) s0Failed).1 = .ok 2 ∧
+    (runHandlerA 3 0 1 0 (some []) s0Failed).2.heap = #[.exc "boom", .null, .null] :=
+  (handler_value_or_null 3 0 1 0 (some []) s0Failed _ _ _ _ (by decide) rfl rfl).2 rfl
+
+/-- a call failed inside the protected block (its frame is still there); after the handler the stack is the script
+frame alone, the module is 0 and there is no receiver -/
+example : (runHandlerA 3 0 1 0 (some []) s0Failed).2.stack = s0.stack ∧
+    (runHandlerA 3 0 1 0 (some []) s0Failed).2.csModuleID = 0 :=
+  let h := catch_restores_stack 3 0 1 0 (some []) s0Failed _ [{ moduleId := 0, callType := 2 }] s0.stack _ _
+    (by decide) rfl rfl rfl rfl
+  ⟨h.2.2.1, h.2.2.2.2.1⟩
+
+/-- a method with no inputs called with one argument: error 51 inside becomes an exception error outside -/
+example : (execFunction 3 (.user (some (.mk [] (some []) []))) none [7] s0).1 = .err (.excErr 2) := by
+  rw [function_converts_runtime_error 2 (some (.mk [] (some []) [])) none [7] s0 _ 51 rfl]
+  rfl
+
+example : (execFunction 5 (.user (some (.mk [] (some [.break 0]) []))) none [] s0).1 = .err .sigBreak := by
+  rw [function_passes_other_errors 4 (some (.mk [] (some [.break 0]) [])) none [] s0 _ .sigBreak rfl
+    ⟨(by intro c h; cases h), (by intro h; cases h)⟩]
+
+/-- `抛出异常：“boom”`-like failure inside a method body with a failed inner call still on the stack, handler `拦截 异常`
+without 输出: the body yields a fresh 空, stack, module and 其 are those of the entry -/
+example :
+    let r := evalExecBlock 6 (some (.mk [] (some [.expr (.arr 0 [.nil])]) [(some ⟨0, "异常"⟩, some [])])) [] s0
+    r.1 = .ok 3 ∧ r.2.stack = s0.stack ∧ r.2.csModuleID = 0 := by
+  have h := catch_restores 4 [] (some [.expr (.arr 0 [.nil])]) [] [] ⟨0, "异常"⟩ (some []) [] s0 (enterScope s0)
+    (evalStmtBlock 5 (some [.expr (.arr 0 [.nil])]) (enterScope s0)).2
+    (excOf (.rt 80) (evalStmtBlock 5 (some [.expr (.arr 0 [.nil])]) (enterScope s0)).2).2
+    (evalPureStmtBlock 4 (some []) (handlerEntry 0 1 2
+      (excOf (.rt 80) (evalStmtBlock 5 (some [.expr (.arr 0 [.nil])]) (enterScope s0)).2).2)).2
+    (.rt 80) 2 [] none { moduleId := 0, callType := 3, this := some 2 }
+    rfl rfl rfl rfl rfl (Or.inl ⟨_, rfl, rfl⟩) (by decide) (by decide)
+    (by intro c hc; cases hc) (by decide) rfl rfl
+  exact ⟨rfl, h.2.1, h.2.2.2.1⟩
+
+/-- why `catch_restores_stack` has to assume the handler block's own balance (`hbal`), and `C08.call_result_is_return`
+the callee's: a loop signal crosses a method boundary.  `g` is `如何g？ 结束循环`; the call fails with the signal and —
+as for every failed call — its frame stays on the stack.  An enclosing 每当 loop then consumes the signal and goes on
+with that frame still there (the real interpreter does the same: probe in the final report). -/
+example : (execDirectFunction 7 "g" [] sG).1 = .err .sigBreak ∧
+    (execDirectFunction 7 "g" [] sG).2.stack.length = sG.stack.length + 1 := ⟨rfl, rfl⟩
+
+/-- a failing first statement: the second (which would panic) never runs -/
+example : (stmtsLoop (evalStmt 1) none [.break 0, .nil] s0).1 = .err .sigBreak := by
+  rw [raise_skips_rest (evalStmt 1) none (.break 0) [.nil] s0 _ .sigBreak rfl rfl]
+
+/-- `抛出点！` where 点 is a user type with the default constructor: the new instance (address 2) is raised -/
+example : (evalStmt 3 (.throw 0 (some ⟨0, "点"⟩) []) sO).1 = .err (.sigExc 2) := by
+  rw [throw_raises 2 0 ⟨0, "点"⟩ sO _ 0 2 "点" .default [] [] _ _ "点" rfl rfl rfl rfl rfl]
+
+end examples
 
 end ZnVerif.Properties.C09
